@@ -187,6 +187,6 @@ def nbs_bct(x, y, thresh, k=1000, tail='both', paired=False, verbose=False, seed
     pvals = np.zeros((nr_components,))
     # calculate p-vals
     for i in range(nr_components):
-        pvals[i] = np.size(np.where(null >= sz_links[i])) / k
+        pvals[i] = np.size(np.where(null_dist >= sz_links[i])) / k
 
     return pvals, adj, null_dist
